@@ -241,17 +241,17 @@ namespace c08
                       mk_pool<fm::small_node_pool>("memory_pool<small_node_pool>", 16, 2, N(16, 8), R(2, 16, 8), false)}});
         v.push_back({"coll_identity",
                      {mk_coll<fm::node_pool, fm::identity_buckets>("collection<node_pool,identity>", 12, 416, N(8, 8), R(3, 8, 8), true),
-                      mk_coll<fm::array_pool, fm::identity_buckets>("collection<array_pool,identity>", 12, 416, N(12, 4), R(2, 12, 4), true),
+                      mk_coll<fm::array_pool, fm::identity_buckets>("collection<array_pool,identity>", 12, 416, N(12, 8), R(2, 12, 8), true),
                       mk_coll<fm::small_node_pool, fm::identity_buckets>("collection<small_node_pool,identity>", 8, 1536, N(8, 8), R(2, 8, 8), false)}});
         v.push_back({"coll_log2",
                      {mk_coll<fm::node_pool, fm::log2_buckets>("collection<node_pool,log2>", 16, 192, N(16, 8), R(2, 8, 8), true),
-                      mk_coll<fm::array_pool, fm::log2_buckets>("collection<array_pool,log2>", 32, 288, N(16, 8), R(3, 8, 8), true),
+                      mk_coll<fm::array_pool, fm::log2_buckets>("collection<array_pool,log2>", 32, 288, N(24, 16), R(2, 24, 16), true),
                       mk_coll<fm::small_node_pool, fm::log2_buckets>("collection<small_node_pool,log2>", 16, 1024, N(5, 1), R(2, 8, 8), false)}});
         v.push_back({"stack", {mk_stack(64, N(32, 8), R(2, 8, 8)), mk_stack(64, N(16, 8), R(2, 16, 8)), mk_stack(96, N(32, 8), R(3, 8, 8))}});
         v.push_back({"iter", {mk_iter<2>(64, N(16, 8), R(2, 8, 8)), mk_iter<3>(96, N(16, 16), R(2, 8, 8)), mk_iter<2>(96, N(8, 8), R(3, 8, 8))}});
         v.push_back({"mixed_a",
                      {mk_pool<fm::array_pool>("memory_pool<array_pool>", 16, 3, N(16, 8), R(2, 16, 8), true), mk_stack(64, N(16, 8), R(2, 16, 8)),
-                      mk_coll<fm::array_pool, fm::log2_buckets>("collection<array_pool,log2>", 16, 192, N(16, 8), R(2, 8, 8), true)}});
+                      mk_coll<fm::array_pool, fm::log2_buckets>("collection<array_pool,log2>", 16, 192, N(16, 8), R(2, 8, 16), true)}});
         v.push_back({"mixed_b",
                      {mk_pool<fm::small_node_pool>("memory_pool<small_node_pool>", 16, 2, N(16, 8), R(2, 8, 8), false),
                       mk_stack(64, N(32, 8), R(2, 8, 8)), mk_iter(64, N(16, 8), R(2, 8, 8))}});
@@ -259,7 +259,7 @@ namespace c08
                      {mk_iter<2>(64, N(16, 8), R(2, 8, 8)), mk_pool<fm::node_pool>("memory_pool<node_pool>", 16, 2, N(16, 8), R(2, 16, 8), true),
                       mk_iter<3>(144, N(16, 8), R(3, 8, 8))}});
         v.push_back({"mixed_d",
-                     {mk_coll<fm::node_pool, fm::identity_buckets>("collection<node_pool,identity>", 12, 416, N(8, 8), R(2, 8, 8), true),
+                     {mk_coll<fm::node_pool, fm::identity_buckets>("collection<node_pool,identity>", 12, 416, N(8, 16), R(2, 8, 16), true),
                       mk_pool<fm::array_pool>("memory_pool<array_pool>", 8, 4, N(8, 8), R(2, 8, 8), true), mk_stack(64, N(8, 8), R(4, 8, 8))}});
         return v;
     }
